@@ -340,7 +340,8 @@ class Telomere:
 
     def _enter_senescence(self, reason: SenescenceReason):
         """Enter senescence state."""
-        if self._phase in (LifecyclePhase.SENESCENT, LifecyclePhase.APOPTOTIC, LifecyclePhase.TERMINATED):
+        # Only a running (ACTIVE) lifecycle can age; a NASCENT one must be started first
+        if self._phase != LifecyclePhase.ACTIVE:
             return
 
         self._senescence_reason = reason
